@@ -39,4 +39,4 @@ for fam in fams:
             e["example"] = dict(src=render.stmts(bodies[cid], 0).strip(), input={k: v for k, v in inp.items() if not isinstance(v, list)}, diff=diff,
                                 variant=m["v1"], fault=m["fault"], halted=m["halted"])
     print(fam, "programs", len(progs), "bad", len(bad), "crashes", len(pl.crashes), "stats", json.dumps(pl.stats), flush=True)
-    json.dump(out, open(os.path.join(common.WORK, "baseline_%s.json" % pid), "w"), indent=1, sort_keys=True)
+    json.dump(out, open(os.path.join(common.WORK, "baseline_%s_%s.json" % (pid, "_".join(fams) if len(fams) < 6 else "all")), "w"), indent=1, sort_keys=True)
